@@ -788,12 +788,31 @@ func main() {
 		if err := runC16(&sf, *seed, emit); err != nil {
 			fail(err)
 		}
-		for _, disabled := range []bool{false, true} {
-			if !sf.Expiry {
-				break
+		if sf.Expiry {
+			// the expiry scenarios wait for a wall-clock instant: they run side by side
+			type ex struct {
+				disabled bool
+				tenant   string
 			}
-			if err := runExpiry(disabled, emit); err != nil {
-				fail(err)
+			cases := []ex{{false, ""}, {true, ""}, {false, "t1"}, {true, "t1"}}
+			outs := make([][]*Step, len(cases))
+			errs := make([]error, len(cases))
+			var wg sync.WaitGroup
+			for i, c := range cases {
+				wg.Add(1)
+				go func(i int, c ex) {
+					defer wg.Done()
+					errs[i] = runExpiry(c.disabled, c.tenant, func(s *Step) { outs[i] = append(outs[i], s) })
+				}(i, c)
+			}
+			wg.Wait()
+			for i := range cases {
+				if errs[i] != nil {
+					fail(errs[i])
+				}
+				for _, s := range outs[i] {
+					emit(s)
+				}
 			}
 		}
 	case "stoporder":
